@@ -5,6 +5,8 @@ import (
 	"fmt"
 	"go/ast"
 	"go/format"
+	"os"
+	"os/exec"
 	"strconv"
 	"strings"
 
@@ -192,6 +194,10 @@ func genDict(r *Rng, wild bool) *gdict {
 		g.d.Values = append(g.d.Values, &dictionary.Value{Attribute: "Service-Type", Name: fmt.Sprintf("Verif-Ext-%d", r.Intn(100)), Number: uint64(100 + r.Intn(100))})
 		if r.Bool() {
 			g.ext["NAS-Port-Type"] = "layeh.com/radius/rfc2865"
+		}
+		// an external attribute that is also on the ignore list: nothing at all may be emitted for it, its VALUEs included
+		if r.Intn(3) == 0 {
+			g.ignore = append(g.ignore, "Service-Type")
 		}
 	}
 	if wild && r.Intn(8) == 0 {
@@ -640,7 +646,7 @@ func checkGenerated(c *Ctx, r *Rng, g *gdict, pkg string, tag string) {
 
 func init() {
 	props["C17"] = func(c *Ctx) {
-		c.Res.Rule = "dictionaries built as parsed structures: (a) mostly-valid (every supported type x the flag combinations the templates implement, distinct numbers, 0..2 vendors, integer VALUEs, ignore lists naming top-level and vendor attributes, external references) and (b) wild (unsupported types, flags on the wrong types, numbers above 255 and dotted, repeated numbers, names that collide after normalisation, keyword-like and non-ASCII names, VALUE numbers that repeat or overflow, vendors with format 2, unknown VALUE attributes), plus (c) the 32 shipped dictionaries with their go:generate options. For each: Generate must not panic; an error must be the one the Coq decision model predicts; on success the output must be identical on a second run, a gofmt fixed point, type-check (go/types, source importer) against the working tree's radius packages, list exactly the declarations the model predicts in the same order with the signatures of the documented API shape, and be byte-identical for a random permutation of all declarations. non-trivial = accepted dictionary with at least one attribute"
+		c.Res.Rule = "dictionaries built as parsed structures: (a) mostly-valid (every supported type x the flag combinations the templates implement, distinct numbers, 0..2 vendors, integer VALUEs, ignore lists naming top-level and vendor attributes, external references) and (b) wild (unsupported types, flags on the wrong types, numbers above 255 and dotted, repeated numbers, names that collide after normalisation, keyword-like and non-ASCII names, VALUE numbers that repeat or overflow, vendors with format 2, unknown VALUE attributes), plus (c) the 32 shipped dictionaries with their go:generate options. For each: Generate must not panic; an error must be the one the Coq decision model predicts; on success the output must be identical on a second run, a gofmt fixed point, type-check (go/types, source importer) against the working tree's radius packages, list exactly the declarations the model predicts in the same order with the signatures of the documented API shape, and be byte-identical for a random permutation of all declarations; 25 seeded dictionaries are generated here after their upper- and lower-cased variants (and after everything else this run generated) and in a fresh child process, and the outputs compared (history independence). non-trivial = accepted dictionary with at least one attribute"
 		r := c.Rng.Fork()
 		// (c) shipped dictionaries
 		for _, s := range findSpecs(c.Repo) {
@@ -663,6 +669,117 @@ func init() {
 			checkGenerated(c, r, g, "zzverif", tag)
 		}
 		c.Flush()
-		c.RequireTags("shipped/accepted", "valid/accepted", "wild/accepted", "wild/refused", "valid/permuted", "shipped/permuted")
+		checkHistoryIndependence(c)
+		c.RequireTags("shipped/accepted", "valid/accepted", "wild/accepted", "wild/refused", "valid/permuted", "shipped/permuted", "history")
+	}
+}
+
+// ---- history independence: the output for a dictionary does not depend on what the process generated before ----
+
+// the same dictionary with every name in another letter case (what a cache keyed by a case-folded name would confuse)
+func caseVariant(d *dictionary.Dictionary, upper bool) *dictionary.Dictionary {
+	f := strings.ToLower
+	if upper {
+		f = strings.ToUpper
+	}
+	out := &dictionary.Dictionary{}
+	for _, a := range d.Attributes {
+		c := *a
+		c.Name = f(a.Name)
+		out.Attributes = append(out.Attributes, &c)
+	}
+	for _, v := range d.Values {
+		c := *v
+		c.Attribute, c.Name = f(v.Attribute), f(v.Name)
+		out.Values = append(out.Values, &c)
+	}
+	for _, v := range d.Vendors {
+		c := *v
+		c.Name = f(v.Name)
+		c.Attributes, c.Values = nil, nil
+		for _, a := range v.Attributes {
+			ca := *a
+			ca.Name = f(a.Name)
+			c.Attributes = append(c.Attributes, &ca)
+		}
+		for _, x := range v.Values {
+			cx := *x
+			cx.Attribute, cx.Name = f(x.Attribute), f(x.Name)
+			c.Values = append(c.Values, &cx)
+		}
+		out.Vendors = append(out.Vendors, &c)
+	}
+	return out
+}
+
+// digests of the generator's output for a fixed, seeded series of dictionaries; with interfere, case variants of each
+// dictionary are generated first
+func historyDigests(seed uint64, interfere bool) ([]string, []string) {
+	r := NewRng(seed)
+	var ds, texts []string
+	for i := 0; len(ds) < 25 && i < 400; i++ {
+		g := genDict(r, false)
+		g.ignore, g.ext = nil, map[string]string{}
+		var vals []*dictionary.Value
+		for _, v := range g.d.Values {
+			if v.Attribute != "Service-Type" {
+				vals = append(vals, v)
+			}
+		}
+		g.d.Values = vals
+		if len(g.d.Attributes)+len(g.d.Vendors) == 0 {
+			continue
+		}
+		if interfere {
+			for _, up := range []bool{true, false} {
+				safely(func() { (&dictionarygen.Generator{Package: "h"}).Generate(caseVariant(g.d, up)) })
+			}
+		}
+		var out []byte
+		var err error
+		if safely(func() { out, err = (&dictionarygen.Generator{Package: "h"}).Generate(g.d) }) || err != nil {
+			continue
+		}
+		ds = append(ds, digest(string(out)))
+		texts = append(texts, dictText(g))
+	}
+	return ds, texts
+}
+
+func scenarioFreshGenerate() (bool, string) {
+	ds, _ := historyDigests(4242, false)
+	fmt.Println("DIGESTS=" + strings.Join(ds, ","))
+	return true, ""
+}
+
+func init() { scenarios["c17-fresh-process"] = scenarioFreshGenerate }
+
+// checkHistoryIndependence compares this process (which has generated case variants of every dictionary first, and
+// hundreds of other dictionaries before) with a fresh child process
+func checkHistoryIndependence(c *Ctx) {
+	mine, texts := historyDigests(4242, true)
+	cmd := exec.Command(os.Args[0], "-scenario", "c17-fresh-process")
+	out, err := cmd.CombinedOutput()
+	s := string(out)
+	i := strings.Index(s, "DIGESTS=")
+	if err != nil || i < 0 {
+		c.Note("history-independence check skipped: child process failed: %v", err)
+		return
+	}
+	line := s[i+8:]
+	if j := strings.IndexByte(line, '\n'); j >= 0 {
+		line = line[:j]
+	}
+	fresh := strings.Split(line, ",")
+	if len(fresh) != len(mine) {
+		c.Fail("spec", "Generate", "history", fmt.Sprintf("%d dictionaries accepted here, %d in a fresh process", len(mine), len(fresh)), "", "", "whether a dictionary is accepted does not depend on what was generated before")
+		return
+	}
+	for k := range mine {
+		c.Count("history", fmt.Sprint(k))
+		if mine[k] != fresh[k] {
+			c.Fail("spec", "Generate", "history", texts[k], "output digest "+mine[k]+" after generating the same dictionary with all names upper-cased and lower-cased", "output digest "+fresh[k]+" in a fresh process", "the output is a deterministic function of the dictionary's content: it does not depend on what the process generated before")
+			return
+		}
 	}
 }
